@@ -26,8 +26,10 @@ ATTR_KIND = {
     "x": "length", "y": "length", "width": "length", "height": "length", "cx": "length", "cy": "length", "r": "length",
     "rx": "length", "ry": "length", "x1": "length", "y1": "length", "x2": "length", "y2": "length",
     "style": "style", "patternTransform": "transform", "dx": "length", "dy": "length", "font-size": "length",
-    "preserveAspectRatio": "par",
+    "preserveAspectRatio": "par", "clip-path": "clip",
 }
+# attributes any graphics or container element may carry: a fault may also *add* one of them, malformed
+ADDABLE = ["clip-path", "transform", "style", "fill", "stroke", "opacity", "stroke-width", "fill-opacity", "stroke-opacity"]
 
 BAD = {
     "transform": ["matrix(1 2 3)", "rotate()", "rotate(abc)", "foo(1)", "translate(1", "scale(,)", "matrix(1,2,3,4,5,x)", "rotate(1e)", ")", "translate(", "matrix()", "rotate(30", "scale(2) rotate(", "translate(1,2,3) matrix(1)", "skewX()", "12", "scale(1 2 3 4)", "rotate(10,20)", "translate(--1)", "matrix(1,0,0,1,0)"],
@@ -36,6 +38,7 @@ BAD = {
     "points": ["1,2 3", "1,2,x", "junk", "1 2 3 4 5", "", ",", "1,,2", "1e 2", "a,b c,d", "1,2 3,4 5,", "(1,2)", "1;2 3;4"],
     "viewbox": ["0 0 100", "a b c d", "0,0,,", "", "0 0 0 0", "1 2 3 4 5", "0 0 -10 10", "0 0 1e400 1", "none", "0 0 100 x"],
     "number": ["junk", "1..", "-", "", "1e", "50%%", "0,5", "abc", "1e400", "++1"],
+    "clip": ["none", "inherit", "", "#c", "url(#c", "junk", "url", "url(#nope)", "url()", "url(#c) url(#d)", "URL(#c)", "url( #c )", "url('#c')", "#", "url(#"],
     "par": ["xMidYMid foo", "none none", "", "junk", "xMinYMin meet slice", "slice", "xmidymid", "xMaxYMax  ", "meet xMidYMid", "defer"],
     "style": ["fill:#gg;stroke:rgb(300,,)", "fill", ":::", "stroke-width:1..2", "fill:url(#nope)", "fill:#12;stroke-width:abc;;:", "stroke:hsl(1,2,3);fill-opacity:1e400", "transform:matrix(1 2 3)", "fill:rgb(1,2", ";", "fill:red;stroke-width:-;stroke:#1234567", "stroke-opacity:junk;fill:", "fill:red:blue", "d:M0,0 h"],
 }
@@ -570,6 +573,11 @@ def apply_faults(ch, root, n_faults, bias=None):
             sel = [c for c in cands if c[2] == bias]
             pool = sel or cands
         e, a, k = ch.choice(pool)
+        if bias == "absent" or ch.coin(0.08):
+            # the faulted attribute is one the element did not state at all
+            absent = [(x, t, ATTR_KIND[t]) for x in walk(root) if x["tag"] not in ("style", "title", "desc") for t in ADDABLE if t not in x["attrs"]]
+            if absent:
+                e, a, k = ch.choice(absent)
         if e is root and ch.coin(0.75):
             # a fault on the root leaves only the no-raise/steps oracles: keep most faults below it
             below = [c for c in pool if c[0] is not root] or [c for c in cands if c[0] is not root]
